@@ -4,7 +4,7 @@
 cd /verif
 PAT=${1:-C*}; OUT=${2:-seeded/RESULTS.md}
 echo "| seed | check | result |" > $OUT.tmp; echo "|---|---|---|" >> $OUT.tmp
-for d in seeded/$PAT; do
+for d in ${SEEDS:-seeded/$PAT}; do
   name=$(basename $d); pid=${name:0:3}
   extra=$(grep "^$name " seeded/MATRIX.conf 2>/dev/null | cut -d' ' -f2-)
   (cd /repo && git status --short | grep -q . && { echo "/repo not clean"; exit 2; })
